@@ -79,11 +79,12 @@ def Kind.memoEarly : Kind → Bool
   | .plain | .node | .ctor | .pyarr => true
   | _ => false
 
-/-- Are the items deep-copied one by one (generic containers), or taken over as they are
-(`numpy.ndarray.copy` / `array.__new__(cls, self)` buffer copy, `PrimitiveTree(self)` sharing the
-node objects, `copy_.wvalues = self.wvalues`)? -/
+/-- Are the items deep-copied one by one (generic containers; `_numpy_array.__deepcopy__` since the F29 fix:
+`numpy.ndarray.__deepcopy__(self, memo)` deep-copies the elements of an object array, and a numeric buffer
+consists of atoms), or taken over as they are (`array.__new__(cls, self)` buffer copy, `PrimitiveTree(self)`
+sharing the node objects, `copy_.wvalues = self.wvalues`)? -/
 def Kind.copyItems : Kind → Bool
-  | .plain | .node | .ctor => true
+  | .plain | .node | .ctor | .nparr => true
   | _ => false
 
 /-- A class made by `creator.create(name, base, **kargs)`: `dict_inst` (attributes whose value is a
